@@ -224,7 +224,13 @@ pub fn run_c17(tier: &str, root: &Path) -> Value {
             if !wl.exists() {
                 std::fs::write(&wl, &g.lock).unwrap();
             }
-            let mut variants: Vec<(String, Vec<u8>)> = Edit::ALL.iter().map(|e| (format!("{}@{}", e.name(), off), e.apply(&g.generated, off))).collect();
+            // quick: CR / LF insertions only next to existing whitespace and at every fourth offset
+            let near_ws = matches!(g.generated[off], b'\n' | b'\r' | b' ' | b'\t') || off % 4 == 0;
+            let mut variants: Vec<(String, Vec<u8>)> = Edit::ALL
+                .iter()
+                .filter(|e| stride_big == 1 || near_ws || !matches!(e, Edit::InsertCr | Edit::InsertLf))
+                .map(|e| (format!("{}@{}", e.name(), off), e.apply(&g.generated, off)))
+                .collect();
             if off % 64 == 0 || off == n - 1 {
                 variants.push((format!("truncate@{}", off), g.generated[..off].to_vec()));
             }
@@ -264,6 +270,9 @@ pub fn run_c17(tier: &str, root: &Path) -> Value {
         let old_time = std::time::UNIX_EPOCH + std::time::Duration::from_secs(1_000_000_000);
         for off in (0..sn).step_by(sstride) {
             for (ei, e) in Edit::ALL.iter().enumerate() {
+                if tier != "thorough" && matches!(e, Edit::InsertCr | Edit::InsertLf) && !(matches!(g.source[off], b'\n' | b'\r' | b' ' | b'\t') || off % 4 == 0) {
+                    continue;
+                }
                 rep.eval(1);
                 std::fs::write(&spath, e.apply(&g.source, off)).unwrap();
                 // file times must not matter: every other case gives the edited source a
